@@ -14,7 +14,7 @@ RULE = ('Hypothesis-generated histories over a small resource tree (root, sub-ma
         'of counting handles whose load() returns a FRESH object of a generated kind on every call (None, 0, 0.0, '
         'empty str/list/dict, False, NaN, objects whose __bool__ raises / __eq__ is always False / __eq__ '
         'raises, a World for world handles): accesses through every path - handle(), root[path], chained [], '
-        'enclosing_map[suffix], get(path)(), a world description file in the same tree naming the resource as $res{a.b} (loaded through a new WorldFromFileHandle, or through the same one after clearing it), attribute and item chains and get() on static snapshots taken at '
+        'enclosing_map[suffix], get(path)(), a second registration of the same handle object in another map of the tree, a world description file in the same tree naming the resource as $res{a.b} (loaded through a new WorldFromFileHandle, or through the same one after clearing it), attribute and item chains and get() on static snapshots taken at '
         'generated moments, SimpleLoop.switch(handle, clear_current, clear_next) for world handles - '
         'interleaved with handle.clear() and with replacement of a handle in the map by a new one (the old handle '
         'stays in the program\'s hands and keeps being accessed) and with loads armed to FAIL once (load() raises, '
@@ -75,7 +75,7 @@ LAYOUT = [(['ha'], False), (['hb'], False), (['sub', 'hc'], False), (['sub', 'de
           (['sub', 'hw'], True), (['lay', 'hk'], False), (['hv'], True),
           # private-looking names (two leading underscores) are names like any other
           (['__hp'], False), (['sub', '__hq'], False)]
-ACCESS = ['call', 'root_item', 'chained', 'enclosing', 'get_call', 'snap_attr', 'snap_item', 'snap_get', 'world_file']
+ACCESS = ['call', 'root_item', 'chained', 'enclosing', 'get_call', 'snap_attr', 'snap_item', 'snap_get', 'world_file', 'second_place']
 
 
 class LoadFailed(Exception):
@@ -105,7 +105,7 @@ def decode_op(t):
     kind = ('access', 'access', 'access', 'access', 'access', 'access', 'clear', 'clear', 'snapshot', 'switch',
             'replace', 'orphan', 'failnext', 'bulk', 'cycle', 'cycle')[sel % 16]
     if kind == 'cycle':
-        return ['cycle', p % 9, p // 9 % 9, p // 81 % 9]
+        return ['cycle', p % 9, p // 9 % 10, p // 90 % 10]
     if kind == 'bulk':
         return ['bulk', p % 4]
     if kind == 'failnext':
@@ -115,7 +115,7 @@ def decode_op(t):
     if kind == 'orphan':
         return ['orphan', p % 8]
     if kind == 'access':
-        return ['access', p % 12, p // 12 % 9, p // 108 % 4]     # handle selectors >= 7: the handle touched last
+        return ['access', p % 12, p // 12 % 10, p // 120 % 4]     # handle selectors >= 7: the handle touched last
     if kind == 'clear':
         return ['clear', p % 12]
     if kind == 'switch':
@@ -124,7 +124,7 @@ def decode_op(t):
 
 
 def strategy():
-    op = st.tuples(st.integers(0, 15), worldops.packed(12 * 9 * 4 * 2)).map(decode_op)
+    op = st.tuples(st.integers(0, 15), worldops.packed(12 * 10 * 4 * 2)).map(decode_op)
     return st.fixed_dictionaries({
         'kinds': st.lists(st.integers(0, len(KINDS) - 1), min_size=5, max_size=5),
         'ops': worldops.chunked(op, 40),
@@ -327,6 +327,14 @@ class Run:
                 got = self.root.get('/'.join(path))()
             elif how == 'world_file':
                 got = self.via_world_file(ix, path)
+            elif how == 'second_place':
+                # the same handle object is registered a second time, in another map of the tree (shared content): it
+                # is one handle with one cache, whichever way it is reached
+                key = 'shared/' + '_'.join(path)
+                if self.root.get(key) is not h:
+                    self.root[key] = h
+                    self.snapshot = None
+                got = self.root[key]
             else:
                 if self.snapshot is None:
                     self.snapshot = self.root.get_static_map()
